@@ -97,7 +97,7 @@ static void run_case(const std::string &line) {
     } else if (o.k != 'Q') { printf("badcase\n"); fflush(stdout); return; }
     ops.push_back(o);
   }
-  if (ops.empty() || ops.back().k != 'Q') { Op q; q.k = 'Q'; ops.push_back(q); }
+  if (ops.empty() || ops.back().k != 'Q') { Op q; q.k = 'Q'; q.ok = true; q.dt = 0; q.pgn = 0; q.src = q.dst = 0; ops.push_back(q); }
 
   // node: created once, opened and address claimed before the first history starts; afterwards it is only the sink of SendMsg()
   g_req = 0;
